@@ -215,6 +215,8 @@ pub fn handle(op: &str, args: &[&str], text: &str) -> String {
                 crate::ops_py::handle,
                 #[cfg(not(no_ops_prover))]
                 crate::ops_prover::handle,
+                #[cfg(not(no_ops_blocks))]
+                crate::ops_blocks::handle,
             ];
             for h in hs {
                 if let Some(r) = h(op, args, text) {
